@@ -80,3 +80,45 @@ Theorem C18_verdict_depends_on_depth_only :
     mm_ok (transcode_reader utf8_valid (enc_val v)) = mm_ok (transcode_reader utf8_valid (enc_val w)) /\
     mm_ok (transcode_slice utf8_valid (enc_val v)) = mm_ok (transcode_slice utf8_valid (enc_val w)).
 Proof. exact verdict_depends_on_depth_only. Qed.
+
+(* JSON, on the reader and writer models of serde_json as xt drives them: the
+   text xt writes for a value (any value the writer can produce: arrays, objects
+   and every mixture) is read back iff fewer than 128 collections surround its
+   innermost value; a value that is too deep is refused with the recursion-limit
+   error; so the verdict at a depth does not depend on the shape.  (Slice and
+   reader agree on every byte string: C02_json_agree_all.  Same premises on the
+   spelling of floats as C01_json_reads_what_was_written.) *)
+From XtModel Require Import JsonModel JsonWriteModel JsonWriteProofs JsonDepthProofs.
+
+Theorem C18_json_limit_exact :
+  forall (fmt_f64 : N -> bytes) (float_ok : N -> bool),
+    (forall b, float_ok b = true -> forall f depth tail, val_end tail ->
+       parse_value (S f) depth (fmt_f64 b ++ tail) = ([EF64 b], JOk tail)) ->
+    (forall b, float_ok b = true ->
+       exists c r, fmt_f64 b = c :: r /\ is_ws c = false /\ (c =? 93)%N = false /\ (c =? 125)%N = false /\ (c =? 44)%N = false) ->
+    forall (v : jval) (tail : bytes),
+      jwf float_ok v = true -> val_end tail ->
+      (jok (snd (json_value (jwrite fmt_f64 v ++ tail))) = true <-> jdepth v < JSON_DEPTH).
+Proof. exact json_value_limit_exact. Qed.
+
+Theorem C18_json_too_deep_is_a_depth_error :
+  forall (fmt_f64 : N -> bytes) (float_ok : N -> bool),
+    (forall b, float_ok b = true -> forall f depth tail, val_end tail ->
+       parse_value (S f) depth (fmt_f64 b ++ tail) = ([EF64 b], JOk tail)) ->
+    (forall b, float_ok b = true ->
+       exists c r, fmt_f64 b = c :: r /\ is_ws c = false /\ (c =? 93)%N = false /\ (c =? 125)%N = false /\ (c =? 44)%N = false) ->
+    forall (v : jval), jwf float_ok v = true ->
+      forall (f depth : nat) (tail : bytes), need v <= f -> 1 <= depth -> depth <= jdepth v -> val_end tail ->
+        snd (parse_value f depth (jwrite fmt_f64 v ++ tail)) = JErr JDepth.
+Proof. exact write_too_deep. Qed.
+
+Theorem C18_json_verdict_depends_on_depth_only :
+  forall (fmt_f64 : N -> bytes) (float_ok : N -> bool),
+    (forall b, float_ok b = true -> forall f depth tail, val_end tail ->
+       parse_value (S f) depth (fmt_f64 b ++ tail) = ([EF64 b], JOk tail)) ->
+    (forall b, float_ok b = true ->
+       exists c r, fmt_f64 b = c :: r /\ is_ws c = false /\ (c =? 93)%N = false /\ (c =? 125)%N = false /\ (c =? 44)%N = false) ->
+    forall (v w : jval) (tail : bytes),
+      jwf float_ok v = true -> jwf float_ok w = true -> val_end tail -> jdepth v = jdepth w ->
+      jok (snd (json_value (jwrite fmt_f64 v ++ tail))) = jok (snd (json_value (jwrite fmt_f64 w ++ tail))).
+Proof. exact json_verdict_depends_on_depth_only. Qed.
